@@ -1,10 +1,11 @@
 #!/bin/bash
 # usage: try_seed_scratch.sh <patch.diff> <Cxx> [<Cyy> ...]
 # Same as try_seed.sh but on a throw-away copy of /repo's working tree (so /repo stays untouched while other work goes on).
+# SEEDRUN=<dir> selects another scratch directory (parallel streams must use different ones AND different properties).
 # The copy lives at a fixed path so that the replay crate's build cache (keyed by repo path) is reused; removed afterwards.
 [ -n "$1" ] || { echo "usage: try_seed_scratch.sh <patch.diff> <Cxx>..."; exit 2; }
 P=$1; shift
-S=/var/tmp/qrlew-verif-seedrun/repo
+S=${SEEDRUN:-/var/tmp/qrlew-verif-seedrun}/repo
 mkdir -p $S && rsync -a --delete --exclude target --exclude .git /repo/ $S/ || exit 2
 (cd $S && git apply $P) || { echo "patch does not apply"; exit 2; }
 cd /verif
